@@ -24,6 +24,15 @@ CHECKS["C20"] = ("proof",
     "re object). Accepted language read as Python reads it (Unicode \\d, optional final newline) - DESIGN F12. Value of strings with "
     "non-ASCII digits not decided.",
     "symbolic execution of the real AST with concrete-length symbolic strings, VCs discharged by z3/cvc5", "3 C20")
+CHECKS["C15"] = ("proof",
+    "For every template (multi-sig excluded): generate-then-parse returns the same template (real first-match search through the template "
+    "list) and the same values, classification predicates equal what the opcodes say, push_data is minimal and inverted by read_data at "
+    "every length < 2**32, lock heights 0..2**32-1 round-trip, and Database.txo_to_row never stores a claim/update output as plain. All "
+    "postconditions of the real functions, symbolically executed with segment-structured byte strings. Arbitrary garbage scripts: bounded "
+    "run-time stand-in only (8421 short strings), not counted as proved.",
+    "Trusted: struct pack/unpack inverse and ranges, io.BytesIO sequential semantics, int.to_bytes/from_bytes inverse. In the "
+    "script_hash+timelock template signature is 1..75 bytes and pubkey 33 bytes. Tokenizer over arbitrary input not decided.",
+    "symbolic execution of the real AST (structural byte segments), VCs discharged by z3/cvc5", "3 C15")
 NOT_YET = {}
 
 def main():
